@@ -17,6 +17,10 @@
 (*   EngineMatch(c,t) parse_merchants(text of c).match(t)  (no globals)    *)
 (*   Evaluate(e, t)   evaluate_transaction(e, t)                           *)
 (*   ClearCache       clear_engine_cache()                                 *)
+(*   ObjParse(c)      eng.parse(text of c) on ONE long-lived MerchantEngine *)
+(*                    object (load_file / parse may be called again and     *)
+(*                    again on the same object: every load starts afresh)   *)
+(*   ObjMatch(t)      eng.match(t) on that object                          *)
 (*                                                                         *)
 (* The meaning of a rule set is left uninterpreted: a classification is    *)
 (* identified by WHICH content decided it ("by").  C07 says: by = the most *)
@@ -25,13 +29,17 @@
 (*   "pinned"    what the pinned tree (cb5393c) did: cache left untouched  *)
 (*   "bypath"    a plausible optimisation bug: reuse the engine when the   *)
 (*               path is unchanged (stale content)                         *)
+(*   "staleaux"  a plausible optimisation bug: tables derived from the     *)
+(*               rules (prefilters, compiled matchers) built on the first  *)
+(*               match of an engine object and not rebuilt by parse()      *)
 (***************************************************************************)
 EXTENDS Naturals, Sequences, FiniteSets, TLC
 
 CONSTANTS RulesPaths, CsvPaths,       \* paths on disk
           RulesOK, RulesBad, CsvOK, CsvBad,   \* content identifiers (Bad: unparsable or missing file)
           Txns, Exprs, Impl, MaxSteps,
-          WithClear                  \* clear_engine_cache() is a test helper, not one of C07's operations
+          WithClear,                 \* clear_engine_cache() is a test helper, not one of C07's operations
+          WithObj                    \* the long-lived engine object takes part
 
 NoneC == "none"          \* no file / nothing cached
 EmptyC == "empty"        \* a load that yields no rules
@@ -45,9 +53,11 @@ VARIABLES disk,       \* [Paths -> content]
           cachedPath, \* _cached_engine_path
           exprCache,  \* set of expression texts parsed so far
           last,       \* the last call and what decided its result
+          obj,        \* content last parsed into the long-lived engine object (NoneC: never parsed)
+          objAux,     \* content whose derived tables that object holds (NoneC: none built yet)
           k           \* step counter (hidden by VIEW in exhaustive runs)
-vars == <<disk, passed, cached, cachedPath, exprCache, last, k>>
-view == <<disk, passed, cached, cachedPath, exprCache, last>>
+vars == <<disk, passed, cached, cachedPath, exprCache, last, obj, objAux, k>>
+view == <<disk, passed, cached, cachedPath, exprCache, last, obj, objAux>>
 
 Tick == k < MaxSteps /\ k' = k + 1
 
@@ -59,25 +69,26 @@ Init == /\ disk \in [Paths -> AllContents]
         /\ passed = EmptyC /\ cached = NoneC /\ cachedPath = NoneC
         /\ exprCache = {}
         /\ last = [op |-> "init"]
+        /\ obj = NoneC /\ objAux = NoneC
         /\ k = 0
 
 Write(p, c) == /\ Tick /\ c \in ContentsOf(p) /\ disk[p] # c
                /\ disk' = [disk EXCEPT ![p] = c]
                /\ last' = [op |-> "write", p |-> p, c |-> c]
-               /\ UNCHANGED <<passed, cached, cachedPath, exprCache>>
+               /\ UNCHANGED <<passed, cached, cachedPath, exprCache, obj, objAux>>
 
 LoadNone == /\ Tick                      \* get_all_rules(None)
             /\ passed' = EmptyC
-            /\ IF Impl = "intended" THEN cached' = NoneC /\ cachedPath' = NoneC
+            /\ IF Impl \in {"intended", "staleaux"} THEN cached' = NoneC /\ cachedPath' = NoneC
                                     ELSE UNCHANGED <<cached, cachedPath>>
             /\ last' = [op |-> "load", p |-> NoneC]
-            /\ UNCHANGED <<disk, exprCache>>
+            /\ UNCHANGED <<disk, exprCache, obj, objAux>>
 
 Load(p) ==
   LET c == disk[p] IN
   /\ Tick
   /\ last' = [op |-> "load", p |-> p]
-  /\ UNCHANGED <<disk>>
+  /\ UNCHANGED <<disk, obj, objAux>>
   /\ IF p \in RulesPaths /\ c \in RulesOK
        THEN /\ passed' = c
             /\ cachedPath' = p
@@ -85,7 +96,7 @@ Load(p) ==
             \* parsing a rules file pre-parses (and caches) every expression in it
             /\ exprCache' = exprCache \cup Exprs
        ELSE /\ passed' = Returned(c)
-            /\ IF Impl = "intended" THEN cached' = NoneC /\ cachedPath' = NoneC
+            /\ IF Impl \in {"intended", "staleaux"} THEN cached' = NoneC /\ cachedPath' = NoneC
                                     ELSE UNCHANGED <<cached, cachedPath>>
             /\ UNCHANGED exprCache
 
@@ -95,22 +106,36 @@ DecidedBy == IF cached # NoneC THEN cached ELSE passed
 Classify(t) == /\ Tick
                /\ last' = [op |-> "classify", t |-> t, by |-> DecidedBy]
                /\ exprCache' = IF DecidedBy \in RulesOK THEN exprCache \cup Exprs ELSE exprCache
-               /\ UNCHANGED <<disk, passed, cached, cachedPath>>
+               /\ UNCHANGED <<disk, passed, cached, cachedPath, obj, objAux>>
 
 EngineMatch(c, t) == /\ Tick /\ c \in RulesOK
                      /\ last' = [op |-> "match", c |-> c, t |-> t, by |-> c]
                      /\ exprCache' = exprCache \cup Exprs
-                     /\ UNCHANGED <<disk, passed, cached, cachedPath>>
+                     /\ UNCHANGED <<disk, passed, cached, cachedPath, obj, objAux>>
 
 Evaluate(e, t) == /\ Tick
                   /\ last' = [op |-> "eval", e |-> e, t |-> t, hit |-> e \in exprCache]
                   /\ exprCache' = exprCache \cup {e}
-                  /\ UNCHANGED <<disk, passed, cached, cachedPath>>
+                  /\ UNCHANGED <<disk, passed, cached, cachedPath, obj, objAux>>
 
 ClearCache == /\ Tick /\ WithClear
               /\ cached' = NoneC /\ cachedPath' = NoneC
               /\ last' = [op |-> "clear"]
-              /\ UNCHANGED <<disk, passed, exprCache>>
+              /\ UNCHANGED <<disk, passed, exprCache, obj, objAux>>
+
+\* parse() on the long-lived object: everything the object knows is replaced
+ObjParse(c) == /\ Tick /\ WithObj /\ c \in RulesOK /\ obj # c
+               /\ obj' = c
+               \* derived tables are built lazily (on the next match) - a parse invalidates them
+               /\ objAux' = IF Impl = "staleaux" THEN objAux ELSE NoneC
+               /\ exprCache' = exprCache \cup Exprs
+               /\ last' = [op |-> "objparse", c |-> c]
+               /\ UNCHANGED <<disk, passed, cached, cachedPath>>
+
+ObjMatch(t) == /\ Tick /\ WithObj /\ obj # NoneC
+               /\ objAux' = IF objAux = NoneC THEN obj ELSE objAux
+               /\ last' = [op |-> "objmatch", t |-> t, by |-> objAux']
+               /\ UNCHANGED <<disk, passed, cached, cachedPath, exprCache, obj>>
 
 Next == \/ \E p \in Paths, c \in AllContents : Write(p, c)
         \/ \E p \in Paths : Load(p)
@@ -119,6 +144,8 @@ Next == \/ \E p \in Paths, c \in AllContents : Write(p, c)
         \/ \E c \in RulesOK, t \in Txns : EngineMatch(c, t)
         \/ \E e \in Exprs, t \in Txns : Evaluate(e, t)
         \/ ClearCache
+        \/ \E c \in RulesOK : ObjParse(c)
+        \/ \E t \in Txns : ObjMatch(t)
 
 Spec == Init /\ [][Next]_vars
 
@@ -128,10 +155,13 @@ HistoryIndependent == last.op = "classify" => last.by = passed
 \* the engine cache never disagrees with what the last load returned
 \* (ClearCache may empty it: then the rules passed in are used, same content)
 CacheCoherent == cached # NoneC => cached = passed
+\* a match on the long-lived object is decided by what was parsed into it LAST
+ObjHistoryIndependent == last.op = "objmatch" => last.by = obj
 \* calls other than Load/ClearCache do not touch what classification depends on
-ReadOnlyCalls == [][ (last'.op \in {"classify", "match", "eval", "write"})
+ReadOnlyCalls == [][ (last'.op \in {"classify", "match", "eval", "write", "objparse", "objmatch"})
                       => UNCHANGED <<passed, cached, cachedPath>> ]_vars
 TypeOK == /\ passed \in RulesOK \cup CsvOK \cup {EmptyC}
           /\ cached \in RulesOK \cup {NoneC}
           /\ exprCache \subseteq Exprs
+          /\ obj \in RulesOK \cup {NoneC} /\ objAux \in RulesOK \cup {NoneC}
 =============================================================================
